@@ -418,6 +418,92 @@ def ngon_for_all_n(chk):
                    detail="height^2 == 4 A tan(pi/n)/n", model={}, replay=_replay_ngon(), abstracted=True)
 
 
+def antiprism_for_all_n(chk):
+    """UniformAntiprismFamily.make_vertices for every n >= 3, modular over the contract of _make_ngon: two congruent n-gons about z = 0, the
+    lower one turned by pi/n; lateral edges (top vertex k to the two nearest bottom vertices) as long as the base edges; volume 1 by the
+    prismatoid formula V = h/6 (A_bottom + 4 A_mid + A_top) with the regular 2n-gon of the lateral edges' midpoints as middle section.
+    All trigonometry is in u = pi/(2n): the identities are decided in the ring Q[sin u, cos u]/(sin^2 + cos^2 - 1)."""
+    from pyvc.symarr import Dim
+    ld = chk.loader()
+    fam = ld.load("coxeter.families.common")
+    fk = chk.function("coxeter.families.common", "UniformAntiprismFamily.make_vertices")
+    DN = Dim("Na", minimum=3)
+    n = DN.n
+    calls = []
+
+    def ngon_stub(n_, z=0, area=1, angle=0):
+        calls.append((n_, z, area, angle))
+        return np.zeros((0, 3))
+
+    sS = sp.Symbol("s_edge", positive=True)
+    cube = []
+
+    def cbrt_stub(x):
+        # contract of numpy.cbrt: the real number whose cube is x (x > 0 here); named so that no fractional powers enter the algebra
+        from pyvc.sym import Sym
+        cube.append(to_expr(x))
+        return Sym(sS)
+
+    def run():
+        calls.clear()
+        cube.clear()
+        old, oldc = fam._make_ngon, fam.cbrt
+        fam._make_ngon, fam.cbrt = ngon_stub, cbrt_stub
+        try:
+            fam.UniformAntiprismFamily.make_vertices(DN.size)
+        finally:
+            fam._make_ngon, fam.cbrt = old, oldc
+        return list(calls), list(cube)
+    u = sp.Symbol("u", positive=True)
+    S, C = sp.symbols("S_u C_u", positive=True)
+
+    def alg(e):
+        e = sp.sympify(e).subs(n, sp.pi / (2 * u))              # everything is a function of u = pi/(2n)
+        e = sp.expand_trig(sp.simplify(e))
+        e = e.replace(lambda x: isinstance(x, sp.tan), lambda x: sp.sin(x.args[0]) / sp.cos(x.args[0]))
+        e = sp.expand_trig(e).subs({sp.sin(u): S, sp.cos(u): C})
+        num, _ = sp.fraction(sp.cancel(sp.together(e)))
+        return sp.expand(sp.rem(sp.expand(num), S**2 + C**2 - 1, S))
+    for p in chk.explore(fk, run, assumptions=DN.facts()):
+        if p.kind != "return":
+            chk.path_raised(fk, p)
+            continue
+        cs, cubes = p.value
+        ok = len(cs) == 2 and all(getattr(c[0], "dim", None) is DN for c in cs) and len(cubes) == 1
+        if ok:
+            (z0, a0, g0), (z1, a1, g1) = [(to_expr(c[1]), to_expr(c[2]), to_expr(c[3])) for c in cs]
+            if sp.simplify(z0) .could_extract_minus_sign() is False:
+                (z0, a0, g0), (z1, a1, g1) = (z1, a1, g1), (z0, a0, g0)
+            h, A = z1 - z0, a0
+            twist = sp.simplify(sp.Abs(g0 - g1) - sp.pi / n) == 0
+            sym = sp.simplify(z0 + z1) == 0 and sp.simplify(a0 - a1) == 0
+            # replace pi/n and pi/(2n) by 2u and u before any trigonometric manipulation
+            rep = {sp.pi / n: 2 * u, sp.pi / (2 * n): u}
+            hh, AA = h.subs(rep).subs(n, sp.pi / (2 * u)), A.subs(rep).subs(n, sp.pi / (2 * u))
+            s3 = cubes[0].subs(rep).subs(n, sp.pi / (2 * u))          # s^3
+            nn = sp.pi / (2 * u)
+            rho2 = AA / (sp.Rational(1, 2) * nn * sp.sin(4 * u))
+            edge2 = 2 * rho2 * (1 - sp.cos(4 * u))
+            lat2 = hh**2 + 2 * rho2 * (1 - sp.cos(2 * u))
+            Amid = nn * rho2 * sp.cos(u)**2 * sp.sin(2 * u)
+            vol = hh / 6 * (2 * AA + 4 * Amid)
+            uni = alg(sp.simplify((lat2 - edge2) / sS**2) if s3 is not None else lat2 - edge2) == 0
+            if s3 is not None:
+                kv = sp.simplify(vol / sS**3)
+                unit = (not kv.has(sS)) and alg(kv**2 * s3**2 - 1) == 0
+            else:
+                unit = alg(vol**2 - 1) == 0
+        else:
+            twist = sym = uni = unit = False
+        rp = _replay_ngon()
+        chk.record("UniformAntiprismFamily.make_vertices:two_congruent_n-gons_about_z=0_twisted_by_pi/n", fk, "proved" if ok and twist and sym else "refuted",
+                   "sympy-normal-form", detail=f"{len(cs)} calls of _make_ngon", model={}, replay=rp, abstracted=True)
+        chk.record("UniformAntiprismFamily.make_vertices:lateral_edges_as_long_as_base_edges", fk, "proved" if uni else "refuted", "sympy-trig-normal-form",
+                   detail="h^2 + 2 rho^2 (1 - cos(pi/n)) == 2 rho^2 (1 - cos(2 pi/n))", model={}, replay=rp, abstracted=True)
+        chk.record("UniformAntiprismFamily.make_vertices:unit_volume_by_the_prismatoid_formula", fk, "proved" if unit else "refuted", "sympy-trig-normal-form",
+                   detail="(h/6 (2A + 4 n rho^2 cos^2(pi/2n) sin(pi/n)))^2 == 1", model={}, replay=rp, abstracted=True)
+
+
 def _replay_ngon():
     """real _make_ngon / prism family for n = 3..40 against shoelace area, edge lengths and the hull volume"""
     def replay(model):
@@ -438,6 +524,12 @@ def _replay_ngon():
                 if abs(A - area_) > 1e-9 * area_ or max(L) - min(L) > 1e-9 * max(L) or abs(math.atan2(V[0, 1], V[0, 0]) - ang) > 1e-9 or np.abs(V[:, 2] - 0.25).max() > 0:
                     return True, {"n": n_, "area_requested": area_, "shoelace_area": float(A), "edge_lengths_min_max": [min(L), max(L)],
                                   "angle_of_first_vertex": math.atan2(V[0, 1], V[0, 0])}
+            Pa = np.asarray(cox.families.UniformAntiprismFamily.make_vertices(n_), float)
+            va = float(cox.shapes.ConvexPolyhedron(Pa).volume)
+            base = math.dist(Pa[n_], Pa[n_ + 1])
+            lat = min(math.dist(Pa[n_], q) for q in Pa[:n_])
+            if abs(va - 1) > 1e-9 or abs(base - lat) > 1e-9 * base:
+                return True, {"family": "UniformAntiprismFamily", "n": n_, "volume": va, "base_edge": base, "lateral_edge": lat}
             P = np.asarray(cox.families.UniformPrismFamily.make_vertices(n_), float)
             vol = float(cox.shapes.ConvexPolyhedron(P).volume)
             side, height = math.dist(P[0], P[1]), abs(P[n_, 2] - P[0, 2])
@@ -449,9 +541,11 @@ def _replay_ngon():
 
 def run(chk):
     chk.trusted += ["float64 arithmetic treated as exact real arithmetic in the guard proofs",
-                    "regular n-gon: area = n s^2 / (4 tan(pi/n)) for edge s; a right prism has volume base area x height (mathematics)",
+                    "regular n-gon: area = n s^2 / (4 tan(pi/n)) for edge s; a right prism has volume base area x height; prismatoid formula V = h/6 (A0 + 4 A_mid + A1) "
+                    "for a polyhedron with all vertices in two parallel planes (mathematics)",
                     "numpy.linspace(a, b, num=n, endpoint=False)[k] = a + (b - a) k / n (assumed contract)"]
     chk.section("ngon_and_prism_for_all_n", "coxeter.families.common::_make_ngon", lambda: ngon_for_all_n(chk))
+    chk.section("antiprism_for_all_n", "coxeter.families.common::UniformAntiprismFamily.make_vertices", lambda: antiprism_for_all_n(chk))
     chk.section("truncation_family_guards", "coxeter.families.plane_shape_families::Family323Plus.get_shape", lambda: guards(chk))
     fk = chk.function("coxeter.families.common", "_make_ngon")
     common = chk.loader().load("coxeter.families.common")
